@@ -79,6 +79,9 @@ Total ==
                  r2.ok /\ View(r2.obj) = View(r.obj)
 \* RP: every cut file, for the harness to give to the real reader (`lc3v replay fmt`)
 EmitCut == (mode = "mal" /\ phase = "chk") => PrintT(<<"HIST", b>>)
+\* RP: one serialization of every object of the universe (the real reader must build that object from it)
+EmitRt == (mode = "rt" /\ phase = "chk") =>
+            PrintT(<<"HIST", BinWrite(o, CHOOSE lo \in Orders(DOMAIN o.labels) : TRUE, CHOOSE ro \in Orders(DOMAIN o.rel) : TRUE)>>)
 \* non-vacuity (run by hand with each as an INVARIANT: TLC must report a violation): the exploration contains
 \* accepted damaged files and rejected ones
 NoAcceptedDamaged == ~(mode = "mal" /\ phase = "chk" /\ BinRead(b).ok /\ Len(b) > 40 /\ BinRead(b).obj.dbg)
